@@ -583,6 +583,10 @@ def _config_keys(cls: ast.ClassDef, rel: str):
             if isinstance(n, ast.Assign) and _u(n.targets[0]) == "config_keys" and isinstance(n.value, (ast.Tuple, ast.Set, ast.List)):
                 for x in n.value.elts:
                     add(const_value(x))
+            if isinstance(n, ast.Assign) and _u(n.targets[0]) == "key" and isinstance(n.value, ast.IfExp) \
+                    and isinstance(n.value.body, ast.Constant) and isinstance(n.value.orelse, ast.Constant):
+                add(n.value.body.value)      # key = "a_b" if "a_b" in metadata else "a-b"
+                add(n.value.orelse.value)
             if isinstance(n, ast.FunctionDef) and n.name == "_config_key":
                 b = _body(n)
                 if len(b) == 1 and isinstance(b[0], ast.Return):
